@@ -567,7 +567,7 @@ def shrink(drv, case, idx, what):
     return cur
 
 
-def explore(ctx, cases, pinned=False):
+def explore(ctx, cases):
     drv = Driver()
     dflt = drv.dflt()
     base = drv.F.FlowIR.inject_default_values_to_component({})
@@ -617,8 +617,7 @@ def explore(ctx, cases, pinned=False):
         terms.append(case_term(raw0, ops, obs, keys, base))
         kept.append((case, obs, keys))
     header = HEADER + '\nDefinition DFLT : jv := %s.\nDefinition BASE : jv := %s.' % (cjv(dflt), cjv(base))
-    chk = 'check_case_pinned' if pinned else 'check_case'
-    bad = ctx.model_mismatches(header, terms, chk, chunk=150, name='pinned' if pinned else 'model')
+    bad = ctx.model_mismatches(header, terms, 'check_case', chunk=150, name='model')
     for k, i in enumerate(bad):
         case, obs, keys = kept[i]
         model = ''
@@ -630,6 +629,66 @@ def explore(ctx, cases, pinned=False):
                       'labels': keys}, model,
                      'C08 live FlowIRConcrete history (observations + cache labels) vs Cache.Model.trace')
     return kept
+
+
+# ------------------------------------------------------------------ the label matchers against re
+def matcher_check(ctx, n):
+    """lit_matches against the real invalidate_cache_for_component (a cache preloaded with one label), and
+    pinned_matches against the pattern of the pinned code for names made of literal characters and single `+`"""
+    rng = ctx.rng
+    drv = Driver()
+    conc = drv.new({'components': []}, 'default')
+    terms, kept = [], []
+    chars = 'ab+.:(1*?$^[]{}|\\ -_\n'
+    for _ in range(n):
+        pinned = rng.random() < 0.35
+        s = rng.choice([0, 1, 10, 2, 11])
+        if pinned:
+            name = ''
+            for _k in range(rng.randrange(1, 6)):
+                name += rng.choice('ab1:')
+                if rng.random() < 0.35:
+                    name += '+'
+            plat = rng.choice(['p', 'q1', 'a+', 'x:stage1:ab', 'default'])
+        else:
+            name = rng.choice(META_NAMES + PREFIX_NAMES) if rng.random() < 0.5 else \
+                ''.join(rng.choice(chars) for _k in range(rng.randrange(1, 7)))
+            plat = rng.choice(['p', 'p.q', 'a+', 'p\nq', 'default', 'x:stage1:ab', 'p:stage0:x'])
+        r = rng.random()
+        stage2 = s if r < 0.7 else rng.choice([0, 1, 10, 11, 100])
+        if r < 0.25:
+            lab_name = name
+        elif r < 0.4:
+            lab_name = name + rng.choice(['1', '0', 'x', '+', ':stage1:foo'])
+        elif r < 0.5:
+            lab_name = name[:-1]
+        elif r < 0.75 and pinned:
+            # a text the name matches when read as a regular expression: repeat the characters under `+`
+            lab_name = re.sub(r'(.)\+', lambda m: m.group(1) * rng.randrange(1, 4), name)
+        elif r < 0.85:
+            lab_name = name.replace('+', '')
+        else:
+            lab_name = ''.join(rng.choice('ab+1:') for _k in range(rng.randrange(0, 6)))
+        label = 'component:%s:stage%s:%s' % (plat, stage2, lab_name)
+        if rng.random() < 0.05:
+            label = label[1:]
+        if pinned:
+            expect = re.compile(r'component:.*:stage%s:%s' % (s, name)).match(label) is not None
+        else:
+            conc._cache.clear()
+            conc._cache[label] = {}
+            conc.invalidate_cache_for_component((s, name))
+            expect = label not in conc._cache.keys()
+        terms.append('(%s, %s, %s, %s, %s)' % ('true' if pinned else 'false', cZ(s), cstr(name), cstr(label),
+                                                'true' if expect else 'false'))
+        kept.append((pinned, s, name, label, expect))
+        ctx.count('matcher=%s:%s' % ('pinned' if pinned else 'repaired', 'match' if expect else 'no-match'))
+    bad = ctx.model_mismatches(HEADER, terms, 'check_matcher', chunk=400, name='matcher')
+    for i in bad:
+        pinned, s, name, label, expect = kept[i]
+        ctx.disagree({'matcher': 'pinned' if pinned else 'repaired', 'stage': s, 'name': name, 'label': label},
+                     expect, (not expect), 'C08 invalidation pattern (re.match) vs Cache.Model.%s'
+                     % ('pinned_matches' if pinned else 'lit_matches'))
 
 
 # ------------------------------------------------------------------ case sources
@@ -710,6 +769,7 @@ def run(ctx):
     cases += random_cases(rng, 25 if quick else 200, 'colon')
     explore(ctx, cases)
     ctx.count('cases', len(cases))
+    matcher_check(ctx, 1200 if quick else 6000)
 
 
 def replay(ctx, path):
